@@ -14,7 +14,10 @@ import common
 import trainer_io as T
 
 ID = "C06"
-TRUSTED = ["the segmentation (section lists) is what the real parser produced (C05 is about the segmentation itself)",
+TRUSTED = ["harness/translate_writer.py: the reading it gives to its Python subset, and coq/theories/WriterRt.v (statement sequences as "
+           "out/bind, try/except Exception, the disk as a finite map from paths to text with os.walk / os.unlink / open 'w' / "
+           "write, the codec as the per-character oracle encb, str(float) as the oracle repr, a None Counter key as its str())",
+           "the segmentation (section lists) is what the real parser produced (C05 is about the segmentation itself)",
            "CPython repr(float) / float(str) round trip (checked on every probability that crosses a file)",
            "CPython int / int true division is correctly rounded; sum() of ints is exact",
            "codecs encode/decode of the ruleset encoding"]
